@@ -376,6 +376,39 @@ func miceMut(args []string) error {
 				dec("d", st, dg+"=", 16384, false, "pad")
 			}
 		}
+		// legal streams in forms the encoder here never writes (another implementation may): the payload cut into full records
+		// FOLLOWED BY AN EMPTY FINAL RECORD, and records of a size other than the one a caller of this encoder would get for the
+		// same payload (a multi-record payload re-cut with a larger record size).  Built by the generator below (not an oracle:
+		// Mice.tla decides what each stream is); each form as is, extended, truncated and with flipped bits
+		for _, c := range []struct{ rs, k int }{{1, 1}, {2, 2}, {16, 1}, {16, 3}, {32, 1}} {
+			p := miPayload(r, c.rs*c.k)
+			for _, emptyFinal := range []bool{true, false} {
+				st, proof := altStream(p, c.rs, emptyFinal)
+				dg := stdDigest(draft, proof)
+				form := "full records + empty final record"
+				if !emptyFinal {
+					form = "full records, last one full"
+				}
+				dec := func(tag string, sbytes []byte, note string) {
+					dst := []int{1, c.rs, c.rs + 32, 4096}[id%4]
+					miDecEvent(next(tag), draft, dg, sbytes, 16384, modes[id%6], dst, r, p, true, form+": "+note)
+				}
+				dec("e", st, "as is")
+				for _, k := range []int{1, 4, c.rs, c.rs + 31, c.rs + 32, c.rs + 33, 3*(c.rs+32) + 1} {
+					dec("e", append(append([]byte{}, st...), miPayload(r, k)...), "suffix")
+					dec("e", append(append([]byte{}, st...), bytes.Repeat([]byte{0}, k)...), "suffix0")
+				}
+				for i := 0; i < len(st); i++ {
+					if len(st) > 200 && i > 16 && i < len(st)-40 && i%7 != 0 {
+						continue
+					}
+					dec("e", st[:i], "truncate")
+					m := append([]byte{}, st...)
+					m[i] ^= 1 << uint(r.Intn(8))
+					dec("e", m, "bitflip")
+				}
+			}
+		}
 		// arbitrary streams against arbitrary digests; streams built to validate under a random digest chain
 		n := 150
 		if thorough {
@@ -391,6 +424,40 @@ func miceMut(args []string) error {
 		}
 	}
 	return nil
+}
+
+// altStream cuts payload (a multiple of rs bytes) into full records and chains the proofs as the MI drafts define them:
+// proof(last) = SHA-256(last || 0x00), proof(i) = SHA-256(record_i || proof(i+1) || 0x01); with emptyFinal the last record
+// is an additional EMPTY record.  Returns the stream (record size, records interleaved with the proofs of their successors)
+// and the top proof.
+func altStream(payload []byte, rs int, emptyFinal bool) ([]byte, []byte) {
+	var recs [][]byte
+	for i := 0; i < len(payload); i += rs {
+		recs = append(recs, payload[i:i+rs])
+	}
+	if emptyFinal || len(recs) == 0 {
+		recs = append(recs, []byte{})
+	}
+	proofs := make([][]byte, len(recs))
+	for i := len(recs) - 1; i >= 0; i-- {
+		h := sha256.New()
+		h.Write(recs[i])
+		if i == len(recs)-1 {
+			h.Write([]byte{0})
+		} else {
+			h.Write(proofs[i+1])
+			h.Write([]byte{1})
+		}
+		proofs[i] = h.Sum(nil)
+	}
+	st := u64bytes(uint64(rs))
+	for i, rec := range recs {
+		st = append(st, rec...)
+		if i+1 < len(recs) {
+			st = append(st, proofs[i+1]...)
+		}
+	}
+	return st, proofs[0]
 }
 
 func u64bytes(n uint64) []byte {
